@@ -43,20 +43,24 @@ def shards(tier, seed):
     # (i) product
     idx = 0
     for n, concepts, extra in G.base_graphs(3, 2, 'mid'):
-        out.append({'sub': 'product', 'g': idx, 'double': not q, 'bounds': 'GRAPH(3,2) mid pool: full marker product (Push(v)/none x 0..2 POPs per triple); ' + ('<=4 triples: all orders; 5 triples: orders within 1 adjacent transposition; 4-5 triples: Push on non-instance triples only, instance triples carry 0..1 POPs' if q else '<=4 triples: all orders; 5 triples: orders within 2 adjacent transpositions; double Push') + '; every top'})
+        out.append({'sub': 'product', 'g': idx, 'double': not q, 'bounds': 'GRAPH(3,2) mid pool: full marker product (Push(v)/none x 0..2 POPs per triple); ' + ('<=4 triples: all orders; 5 triples: orders within 1 adjacent transposition; 4-5 triples: Push on non-instance triples only, instance triples carry 0..1 POPs' if q else '<=4 triples: all orders; 5 triples: orders within 2 adjacent transpositions; two Push markers per triple on graphs of <= 3 triples') + '; every top'})
+        idx += 1
+    idx = 0
+    for n, concepts, extra in G.base_graphs(2, 1, 'wide'):
+        out.append({'sub': 'product', 'pool': 'wide', 'g': idx, 'double': False, 'bounds': 'GRAPH(2,1) wide pool (concepts spelled like variables, inverted roles, numeric constants): full marker product, all orders, every top'})
         idx += 1
     # (ii) edits
     if q:
         b = '<=2 edits from the decoding of TREE(3,2,3), <=1 edit from TREE(3,3,3) (c06m alphabet) and a VERIF_SEED-chosen quarter of TREE(4,4,3) (c06n alphabet); every top'
-        out += T.shard_list(3, 2, 3, 'c06m', extra={'sub': 'edits', 'k': 2, 'bounds': b})
+        out += T.shard_list(3, 2, 3, 'c06m', extra={'sub': 'edits', 'k': 2, 'names2': 1, 'bounds': b + '; TREE(3,2,3) also decoded from text with two-character variable names'})
         out += T.shard_list(3, 3, 3, 'c06m', extra={'sub': 'edits', 'k': 1, 'bounds': b})
         big = T.shard_list(4, 4, 3, 'c06n', extra={'sub': 'edits', 'k': 1, 'bounds': b})
         out += big[seed % 4::4]    # rotating quarter of the largest family (each shard exhaustive)
     else:
-        b = '<=3 edits from the decoding of TREE(3,2,3), <=2 edits from TREE(3,3,3) (c06m alphabet) and TREE(4,4,4) (c06n alphabet); every top'
-        out += T.shard_list(3, 2, 3, 'c06m', extra={'sub': 'edits', 'k': 3, 'bounds': b})
+        b = '<=3 edits from the decoding of TREE(3,2,3), <=2 edits from TREE(3,3,3) (c06m alphabet), <=1 edit from TREE(4,4,3) (c06n alphabet); every top; every state also as deep copy'
+        out += T.shard_list(3, 2, 3, 'c06m', extra={'sub': 'edits', 'k': 3, 'names2': 1, 'bounds': b})
         out += T.shard_list(3, 3, 3, 'c06m', extra={'sub': 'edits', 'k': 2, 'bounds': b})
-        out += T.shard_list(4, 4, 4, 'c06n', pin=3, extra={'sub': 'edits', 'k': 2, 'bounds': b})
+        out += T.shard_list(4, 4, 3, 'c06n', pin=3, extra={'sub': 'edits', 'k': 1, 'bounds': b})
     out += T.shard_list(3, 2, 3, 'c06amr', extra={'sub': 'edits', 'k': 1 if q else 2, 'model': 'AMR', 'bounds': 'AMR model, roles ending in -of by definition: <=1/2 edits from the decoding of TREE(3,2,3)'})
     # (ii') surplus POPs: k extra POPs on each triple in turn, k = 1..5
     out += T.shard_list(3, 3, 3, 'c06m', extra={'sub': 'surplus', 'bounds': 'decoding of TREE(3,3,3) (c06m alphabet) with 1..5 surplus POPs added on each triple in turn, every top'})
@@ -73,27 +77,34 @@ def _tot_alphabet():
 
 
 _gl = None
+_glw = None
 
 
 def cases(shard):
     global _gl
     sub = shard['sub']
+    global _glw
     if sub == 'product':
-        if _gl is None:
-            _gl = list(G.base_graphs(3, 2, 'mid'))
-        n, concepts, extra = _gl[shard['g']]
+        if shard.get('pool') == 'wide':
+            if _glw is None:
+                _glw = list(G.base_graphs(2, 1, 'wide'))
+            n, concepts, extra = _glw[shard['g']]
+        else:
+            if _gl is None:
+                _gl = list(G.base_graphs(3, 2, 'mid'))
+            n, concepts, extra = _gl[shard['g']]
         triples = G.instance_triples(n, concepts) + list(extra)
         vs = G.VARS[:n]
-        small = len(triples) <= (4 if shard['double'] else 3)
+        small = len(triples) <= 3
         allorders = len(triples) <= 4
         pushopts = [[]] + [[v] for v in vs]
-        if shard['double']:
+        if shard['double'] and small:
             pushopts += [[v, w] for v in vs for w in vs if v != w]
         for order in G.orderings(triples, 'all' if allorders else ('adjacent2' if shard['double'] else 'adjacent1')):
             per = []
             for tr in order:
                 if tr[1] == ':instance' and not small:
-                    per.append([(p, k) for p in [[]] for k in ((0, 1, 2) if shard['double'] else (0, 1))])
+                    per.append([(p, k) for p in [[]] for k in (0, 1)])
                 else:
                     per.append([(p, k) for p in pushopts for k in (0, 1, 2)])
             for marks in itertools.product(*per):
@@ -105,6 +116,8 @@ def cases(shard):
                 yield {'t': t, 'k': shard['k'], 'model': shard['model']}
             else:
                 yield {'t': t, 'k': shard['k']}
+                if shard.get('names2'):
+                    yield {'t': t, 'k': shard['k'], 'names2': 1}
     elif sub == 'surplus':
         for t in T.shard_trees(shard):
             yield {'t': t}
@@ -210,6 +223,10 @@ def _check_edits(case, ctx, pm, rm):
         ctx.cats['not_well_formed'] += 1
         return
     g0 = penman.interpret(Tree(t), model=pm)
+    if case.get('names2'):
+        # decoded from text with two-character variable names: every mention is a distinct str object
+        from pmc.props.c10 import ref_apply
+        g0 = penman.decode(penman.format(Tree(ref_apply(t, {'a': 'a1', 'b': 'b2', 'c': 'c3', 'd': 'd4'}))), model=pm)
     triples = list(g0.triples)
     variables = sorted(v for v in g0.variables() if v is not None)
     init = _state_of(g0)
@@ -224,7 +241,7 @@ def _check_edits(case, ctx, pm, rm):
             for top in variables:
                 if not (C03._roundtrip(ctx, pm, rm, rm.name, g, top, wants[top], f'edits(depth {depth})') and
                         C03._roundtrip(ctx, pm, rm, rm.name, gc, top, wants[top], f'edits(depth {depth}, deep copy)')):
-                    ctx.fails[-1]['case'] = {'t': case['t'], 'k': case['k'], 'model': case.get('model'), 'state': [list(map(list, st[0])), list(map(list, st[1]))], 'top': top}
+                    ctx.fails[-1]['case'] = {'t': case['t'], 'k': case['k'], 'model': case.get('model'), 'names2': case.get('names2'), 'state': [list(map(list, st[0])), list(map(list, st[1]))], 'top': top}
                     return
         if depth >= case['k']:
             break
